@@ -297,8 +297,8 @@ def run(tier, seed):
             continue
         stats["accept" if ri[0] == "1" else "reject"] += 1
         f = mpair[i].split() if mpair else None
-        gram = f is not None and len(f) == 6 and f[5] == "1"
-        if f is not None and (len(f) != 6):
+        gram = f is not None and len(f) in (6, 7) and f[5] == "1"
+        if f is not None and (len(f) not in (6, 7)):
             corr.append({"source": src, "why": "model runner: " + mpair[i][:200]})
             f = None
         # ---- the property, on the real builds
@@ -314,13 +314,14 @@ def run(tier, seed):
             rcv = real[(i, "computed")]
             stats["computed"] += 1
             if rcv[0] not in ("P", ri[0]):
-                if c[0] == "exemplar" and rcv[0] == "1" and not comp_info[i][1] and ck.is_known("C06-exemplar-static-only"):
+                if False:
                     stats["known_static_only"] = stats.get("known_static_only", 0) + 1
                 else:
                     bad.append({"source": rcv[1], "why": "with the value written as a computation the binding %s, as a literal it %s" %
                                 ("builds" if rcv[0] == "1" else "is rejected", "builds" if ri[0] == "1" else "is rejected"), "literal": src})
         if f is not None:
-            acc, accp, accn, conf, confs, _ = f
+            acc, accp, accn, conf, confs = f[:5]
+            rt_ok = f[6] if len(f) > 6 else None
             if gram:
                 stats["in_grammar"] += 1
                 if conf != ri[0]:
